@@ -595,8 +595,8 @@ fn main() {
     run.extra("fixtures", json!(fx.iter().map(|c| c.fixture.clone().unwrap()).collect::<Vec<_>>()));
     run.drive_enum("fixtures", fx, |c| judge(&run, c));
 
-    let n_box: u32 = run.scale(400, 150000);
-    let n_other: u32 = run.scale(150, 40000);
+    let n_box: u32 = run.scale(20000, 150000);
+    let n_other: u32 = run.scale(6000, 40000);
     for kind in assets::KINDS.iter().copied().chain(["c2pa"]) {
         let kind: &'static str = kind;
         let boxhash = capable.contains(&kind);
